@@ -9,4 +9,6 @@ for p in glob.glob(os.path.join(root, "Stevia", "Proofs", "GenTree*32.lean")):
           .replace("32-bit", "8-bit"))
     import re
     s = re.sub(r"(GenTree\w*?)32", r"\g<1>8", s)
+    # the accepted configurations differ: up to 255 records with wrap-around instead of fewer than 2^32 - 1
+    s = s.replace("(h2 : n < 4294967295)", "(h2 : n ≤ 255)").replace("(Nat.le_of_lt h2) (Or.inr h2)", "h2 (Or.inl rfl)")
     open(p[:-len("32.lean")] + "8.lean", "w").write(s)
